@@ -19,6 +19,7 @@ package main
 
 import (
 	"fmt"
+	"go/constant"
 	"go/token"
 	"go/types"
 	"math/big"
@@ -378,6 +379,7 @@ func init() {
 		checkHullTest(ctx, r)
 		checkReferenceVisitsEveryTriple(ctx, r)
 		checkCanonicalHasNoShortcut(ctx, r)
+		checkCavityEdges(ctx, r)
 		r.floor("Y4", 3)
 		r.floor("Y5", 2)
 	}}
@@ -1037,4 +1039,279 @@ func checkCanonicalHasNoShortcut(ctx *Ctx, r *Report) {
 		}
 	})
 	r.check("Y3", "TriangleISet.Canonical|no-return-before-rotation-and-sort", fn.Pos(), bad == "" && len(sorts) > 0, fmt.Sprintf("%d returns, %d sorting calls;%s", nRet, len(sorts), bad))
+}
+
+// checkCavityEdges (Y10, Y11): after the triangles whose circumcircle contains the new point are
+// removed, their edges are collected; an edge shared by two removed triangles is interior to the
+// cavity and is tagged, every other edge gets a triangle to the new point.
+//
+//	Y10  two edges are the same edge when they join the same two vertices: the tagging is decided
+//	     by equality comparisons of their end point indices and nothing else. (A packed key
+//	     lo·n+hi collides - the edge list also holds the super triangle's indices n..n+2.)
+//	Y11  every edge that is not tagged gets its triangle: inside the loop that forms the new
+//	     triangles a branch that can bypass the append tests an end point index against zero
+//	     (the tag) and nothing else. (An area threshold leaves holes in small-scale point sets.)
+func checkCavityEdges(ctx *Ctx, r *Report) {
+	fn := ctx.ssaFunc("render", "Delaunay2d")
+	if fn == nil {
+		r.undecided("Y10", "Delaunay2d", 0, "not found")
+		return
+	}
+	isEdge := func(t types.Type) bool { return strings.HasSuffix(t.String(), "render.EdgeI") }
+	isTri := func(t types.Type) bool { return strings.HasSuffix(t.String(), "render.TriangleI") }
+	// an end point index: an element of an edge (loaded through index expressions only)
+	var endpoint func(v ssa.Value, depth int) bool
+	endpoint = func(v ssa.Value, depth int) bool {
+		if depth > 6 {
+			return false
+		}
+		switch x := v.(type) {
+		case *ssa.UnOp:
+			if x.Op == token.MUL {
+				if ia, ok := x.X.(*ssa.IndexAddr); ok {
+					return isEdge(derefType(ia.X.Type())) || endpointBase(ia.X, isEdge)
+				}
+			}
+		case *ssa.Index:
+			return isEdge(x.X.Type())
+		case *ssa.Extract:
+			return endpoint(x.Tuple, depth+1)
+		}
+		return false
+	}
+	var onlyEq func(v ssa.Value, depth int) bool
+	onlyEq = func(v ssa.Value, depth int) bool {
+		if depth > 6 {
+			return false
+		}
+		switch x := v.(type) {
+		case *ssa.Const:
+			return true
+		case *ssa.BinOp:
+			if x.Op == token.EQL || x.Op == token.NEQ {
+				if bt, ok := x.X.Type().Underlying().(*types.Basic); ok && bt.Info()&types.IsBoolean != 0 {
+					return onlyEq(x.X, depth+1) && onlyEq(x.Y, depth+1)
+				}
+				return endpoint(x.X, 0) && endpoint(x.Y, 0)
+			}
+			return false
+		case *ssa.UnOp:
+			return x.Op == token.NOT && onlyEq(x.X, depth+1)
+		case *ssa.Phi:
+			for _, e := range x.Edges {
+				if !onlyEq(e, depth+1) {
+					return false
+				}
+			}
+			return true
+		case *ssa.Call:
+			// a predicate helper on two edges
+			g := x.Call.StaticCallee()
+			if g == nil || !inModule(g) || len(g.Blocks) == 0 {
+				return false
+			}
+			ok := true
+			allInstrs(g, func(_ *ssa.BasicBlock, ins ssa.Instruction) {
+				if ret, isRet := ins.(*ssa.Return); isRet {
+					for _, rv := range ret.Results {
+						if !onlyEq(rv, depth+1) {
+							ok = false
+						}
+					}
+				}
+				if iff, isIf := ins.(*ssa.If); isIf && !onlyEq(iff.Cond, depth+1) {
+					ok = false
+				}
+			})
+			return ok
+		}
+		return false
+	}
+	// a test of the tag itself: an end point index against 0 / -1, or an element of a slice of
+	// flags kept beside the edge list
+	isFlagLoad := func(v ssa.Value) bool {
+		ld, ok := v.(*ssa.UnOp)
+		if !ok || ld.Op != token.MUL {
+			return false
+		}
+		ia, ok := ld.X.(*ssa.IndexAddr)
+		if !ok {
+			return false
+		}
+		sl, ok := ia.X.Type().Underlying().(*types.Slice)
+		if !ok {
+			return false
+		}
+		bt, ok := sl.Elem().Underlying().(*types.Basic)
+		return ok && bt.Kind() == types.Bool
+	}
+	isTagTest := func(c ssa.Value) bool {
+		c, _ = stripNot(c)
+		if isFlagLoad(c) {
+			return true
+		}
+		if bo, isB := c.(*ssa.BinOp); isB {
+			switch bo.Op {
+			case token.LSS, token.GEQ, token.LEQ, token.GTR, token.EQL, token.NEQ:
+				if k, isK := constInt(bo.Y); isK && (k == 0 || k == -1) && endpoint(bo.X, 0) {
+					return true
+				}
+			}
+		}
+		return false
+	}
+	// Y10: the stores of the tag (a constant edge into the edge list, or true into the flags), in
+	// Delaunay2d or in a helper it hands the edge list to
+	nTag := 0
+	badTag := ""
+	tagFns := []*ssa.Function{fn}
+	allInstrs(fn, func(_ *ssa.BasicBlock, ins ssa.Instruction) {
+		if c, ok := ins.(*ssa.Call); ok {
+			if g := c.Call.StaticCallee(); g != nil && inModule(g) && len(g.Blocks) > 0 {
+				for _, a := range c.Call.Args {
+					if sl, ok := a.Type().Underlying().(*types.Slice); ok && isEdge(sl.Elem()) {
+						tagFns = append(tagFns, g)
+					}
+				}
+			}
+		}
+	})
+	for _, tf := range tagFns {
+		tf := tf
+		allInstrs(tf, func(b *ssa.BasicBlock, ins ssa.Instruction) {
+			fn := tf
+			st, ok := ins.(*ssa.Store)
+			if !ok {
+				return
+			}
+			ia, ok := st.Addr.(*ssa.IndexAddr)
+			if !ok {
+				return
+			}
+			ld := innermostLoop(fn, b)
+			if ld == nil {
+				return
+			}
+			if k, isC := st.Val.(*ssa.Const); isC && isFlagLoad(&ssa.UnOp{Op: token.MUL, X: ia}) {
+				// dup[j] = true
+				if k.Value == nil || k.Value.Kind() != constant.Bool || !constant.BoolVal(k.Value) {
+					return
+				}
+				nTag++
+				for _, g := range branchGuards(b) {
+					if !ld.in[g.at] && g.at != ld.header {
+						continue
+					}
+					if il := innermostLoop(fn, g.at); il != nil && g.at == il.header {
+						continue
+					}
+					if !onlyEq(g.cond, 0) && !isTagTest(g.cond) && len(badTag) < 300 {
+						badTag += " the test at " + ctx.pos(branchPos(g.at, g.at.Instrs[len(g.at.Instrs)-1].(*ssa.If))) + " is not a comparison of end point indices;"
+					}
+				}
+				return
+			}
+			if !isEdge(derefType(ia.Type())) {
+				return
+			}
+			// is the stored value a constant edge (the tag), not a computed one?
+			ldv, isLoad := st.Val.(*ssa.UnOp)
+			if !isLoad || ldv.Op != token.MUL {
+				return
+			}
+			lit, isAlloc := ldv.X.(*ssa.Alloc)
+			if !isAlloc || lit.Referrers() == nil {
+				return
+			}
+			constOnly, nEl := true, 0
+			for _, ref := range *lit.Referrers() {
+				ea, ok := ref.(*ssa.IndexAddr)
+				if !ok || ea.Referrers() == nil {
+					continue
+				}
+				for _, r2 := range *ea.Referrers() {
+					if es, ok := r2.(*ssa.Store); ok && es.Addr == ssa.Value(ea) {
+						nEl++
+						if _, isC := es.Val.(*ssa.Const); !isC {
+							constOnly = false
+						}
+					}
+				}
+			}
+			if !constOnly || nEl == 0 {
+				return
+			}
+			nTag++
+			for _, g := range branchGuards(b) {
+				if !ld.in[g.at] && g.at != ld.header {
+					continue
+				}
+				if innermostLoop(fn, g.at) != nil && g.at == innermostLoop(fn, g.at).header {
+					continue // loop tests
+				}
+				if !onlyEq(g.cond, 0) && !isTagTest(g.cond) && len(badTag) < 300 {
+					badTag += " the test at " + ctx.pos(branchPos(g.at, g.at.Instrs[len(g.at.Instrs)-1].(*ssa.If))) + " is not a comparison of end point indices;"
+				}
+			}
+		})
+	}
+	r.check("Y10", "Delaunay2d|shared-edges-found-by-comparing-end-points", fn.Pos(), nTag > 0 && badTag == "", fmt.Sprintf("%d tagging stores, each behind equality tests of end point indices only;%s", nTag, badTag))
+	r.floor("Y10", 1)
+	// Y11: the append of the new triangle
+	var app *ssa.Call
+	allInstrs(fn, func(b *ssa.BasicBlock, ins ssa.Instruction) {
+		c, ok := ins.(*ssa.Call)
+		if !ok {
+			return
+		}
+		bi, ok := c.Call.Value.(*ssa.Builtin)
+		if !ok || bi.Name() != "append" || len(c.Call.Args) == 0 {
+			return
+		}
+		if sl, ok := c.Call.Args[0].Type().Underlying().(*types.Slice); ok && isTri(sl.Elem()) && innermostLoop(fn, b) != nil {
+			// the one fed by an edge: the last such append in the insertion loop
+			app = c
+		}
+	})
+	if app == nil {
+		r.undecided("Y11", "Delaunay2d", fn.Pos(), "no append of a new triangle inside a loop")
+		return
+	}
+	ld := innermostLoop(fn, app.Block())
+	bad := ""
+	nBr := 0
+	for _, x := range ld.order {
+		if x == ld.header || app.Block().Dominates(x) {
+			continue
+		}
+		iff, ok := x.Instrs[len(x.Instrs)-1].(*ssa.If)
+		if !ok || !reachesWithout(ld, x, app.Block()) {
+			continue
+		}
+		nBr++
+		if !isTagTest(iff.Cond) {
+			bad += " the test at " + ctx.pos(branchPos(x, iff)) + " can skip an edge and is not a test of its tag;"
+		}
+	}
+	r.check("Y11", "Delaunay2d|every-untagged-edge-gets-its-triangle", app.Pos(), bad == "", fmt.Sprintf("%d branches can bypass the new triangle, each a test of an end point index against the tag;%s", nBr, bad))
+	r.floor("Y11", 1)
+}
+
+// endpointBase: v is an address inside an edge-typed value (an element of a slice of edges, a
+// local edge variable).
+func endpointBase(v ssa.Value, isEdge func(types.Type) bool) bool {
+	for i := 0; i < 4 && v != nil; i++ {
+		if isEdge(derefType(v.Type())) {
+			return true
+		}
+		switch x := v.(type) {
+		case *ssa.IndexAddr:
+			v = x.X
+		case *ssa.FieldAddr:
+			v = x.X
+		default:
+			return false
+		}
+	}
+	return false
 }
